@@ -5,9 +5,9 @@
 (* operators over an explicit state record, for unit weights and unit      *)
 (* minimum lengths (phase 2).  Same loops, same data structures, same      *)
 (* iteration orders as the Go code:                                        *)
-(*   es            the edge list g.Edges (sequence of <<from, to>>)        *)
-(*   In(n), Out(n) the node's edge lists, in edge-list order (valid for    *)
-(*                 graphs on which phase 1 reversed nothing)               *)
+(*   es.p          the edge list g.Edges (sequence of <<from, to>>)        *)
+(*   es.inl[n], es.outl[n]  the node's edge lists n.In / n.Out, in list    *)
+(*                 order (edge-list order unless phase 1 reversed edges)   *)
 (*   VisitEdges    In(n) then Out(n)                                       *)
 (*   g.Nodes       1..NN in index order                                    *)
 (* The constants ACCUMULATE and RESET_TREE select the shipped variants of  *)
@@ -24,12 +24,17 @@ Min(S) == CHOOSE x \in S : \A y \in S : x <= y
 RECURSIVE SumOver(_, _)
 SumOver(f, S) == IF S = {} THEN 0 ELSE LET x == CHOOSE y \in S : TRUE IN f[x] + SumOver(f, S \ {x})
 
-E(es) == DOMAIN es
-In(es, n)  == SelectSeq([i \in DOMAIN es |-> i], LAMBDA i : es[i][2] = n)
-Out(es, n) == SelectSeq([i \in DOMAIN es |-> i], LAMBDA i : es[i][1] = n)
+\* es = [p |-> the edge list, inl |-> n.In per node, outl |-> n.Out per node] (lists of edge positions in list order)
+E(es) == DOMAIN es.p
+In(es, n)  == es.inl[n]
+Out(es, n) == es.outl[n]
+\* the lists of a graph populated from an edge list on which phase 1 reversed nothing: edge-list order
+MkAdj(NN, pairs) == [p |-> pairs,
+                     inl  |-> [n \in 1..NN |-> SelectSeq([i \in DOMAIN pairs |-> i], LAMBDA i : pairs[i][2] = n)],
+                     outl |-> [n \in 1..NN |-> SelectSeq([i \in DOMAIN pairs |-> i], LAMBDA i : pairs[i][1] = n)]]
 Visit(es, n) == In(es, n) \o Out(es, n)
-Other(es, e, n) == IF es[e][2] # n THEN es[e][2] ELSE es[e][1]
-Slack(es, e, r) == r[es[e][2]] - r[es[e][1]] - 1
+Other(es, e, n) == IF es.p[e][2] # n THEN es.p[e][2] ELSE es.p[e][1]
+Slack(es, e, r) == r[es.p[e][2]] - r[es.p[e][1]] - 1
 
 \* ---- initLayers: Kahn's sweep from the sources in node order, layer = longest path from a source
 RECURSIVE InitSweep(_, _, _, _, _)
@@ -41,7 +46,7 @@ InitSweep(es, NN, queue, unseen, r) ==
              step[k \in 0..Len(outs)] ==
                  IF k = 0 THEN [q |-> Tail(queue), u |-> unseen, rr |-> r]
                  ELSE LET p == step[k - 1]
-                          m == es[outs[k]][2]
+                          m == es.p[outs[k]][2]
                           rr2 == [p.rr EXCEPT ![m] = IF @ > p.rr[n] + 1 THEN @ ELSE p.rr[n] + 1]
                           u2 == [p.u EXCEPT ![m] = @ - 1]
                       IN [q |-> IF u2[m] = 0 THEN Append(p.q, m) ELSE p.q, u |-> u2, rr |-> rr2]
@@ -69,7 +74,7 @@ TightTree(es, tree0, r) == TT(es, 1, [ve |-> {}, vn |-> {}, tree |-> IF RESET_TR
 \* ---- incidentNonTreeEdge: tree nodes in node order, their edges in visit order, first edge of minimum slack
 IncidentEdge(es, NN, S, r) ==
     LET cands == [n \in 1..NN |-> IF n \in S.vn
-                    THEN SelectSeq(Visit(es, n), LAMBDA e : es[e][1] # es[e][2] /\ e \notin S.tree /\ Other(es, e, n) \notin S.vn)
+                    THEN SelectSeq(Visit(es, n), LAMBDA e : es.p[e][1] # es.p[e][2] /\ e \notin S.tree /\ Other(es, e, n) \notin S.vn)
                     ELSE <<>>]
         RECURSIVE Flat(_)
         Flat(n) == IF n > NN THEN <<>> ELSE cands[n] \o Flat(n + 1)
@@ -92,17 +97,17 @@ WFold(es, q, W, n, l, T) ==
 Numbering(es, NN, T) == Walk(es, 1, [vis |-> {}, low |-> [n \in 1..NN |-> 0], lim |-> [n \in 1..NN |-> 0], nxt |-> 0], 1, T)
 
 \* ---- inHeadComponent, setCutValues
-InHead(es, n, e, lm, lw) == LET u == es[e][1] v == es[e][2] IN
+InHead(es, n, e, lm, lw) == LET u == es.p[e][1] v == es.p[e][2] IN
     IF lm[u] < lm[v] THEN ~(lw[u] <= lm[n] /\ lm[n] <= lm[u]) ELSE lw[v] <= lm[n] /\ lm[n] <= lm[v]
 CutOf(es, e, T, lm, lw) == 1 + SumOver([f \in E(es) |-> IF f \in T THEN 0
-        ELSE IF ~InHead(es, es[f][1], e, lm, lw) /\  InHead(es, es[f][2], e, lm, lw) THEN  1
-        ELSE IF  InHead(es, es[f][1], e, lm, lw) /\ ~InHead(es, es[f][2], e, lm, lw) THEN -1 ELSE 0], E(es))
+        ELSE IF ~InHead(es, es.p[f][1], e, lm, lw) /\  InHead(es, es.p[f][2], e, lm, lw) THEN  1
+        ELSE IF  InHead(es, es.p[f][1], e, lm, lw) /\ ~InHead(es, es.p[f][2], e, lm, lw) THEN -1 ELSE 0], E(es))
 NewCut(es, T, lm, lw, old) == [e \in E(es) |-> IF e \in T THEN (IF ACCUMULATE THEN old[e] ELSE 0) + CutOf(es, e, T, lm, lw) ELSE old[e]]
 
 \* ---- negCutValueTreeEdge (first in edge order), minSlackNonTreeEdge (first of minimum slack from head to tail component)
 Leave(es, st) == LET c == {e \in E(es) : e \in st.tree /\ st.cut[e] < 0} IN IF c = {} THEN 0 ELSE Min(c)
 Enter(es, st, e) ==
-    LET c == {f \in E(es) : f # e /\ f \notin st.tree /\ InHead(es, es[f][1], e, st.lim, st.low) /\ ~InHead(es, es[f][2], e, st.lim, st.low)}
+    LET c == {f \in E(es) : f # e /\ f \notin st.tree /\ InHead(es, es.p[f][1], e, st.lim, st.low) /\ ~InHead(es, es.p[f][2], e, st.lim, st.low)}
     IN IF c = {} THEN 0 ELSE LET ms == Min({Slack(es, f, st.rank) : f \in c}) IN Min({f \in c : Slack(es, f, st.rank) = ms})
 
 \* ---- one round of the feasibleTree loop; st = [phase, rank, tree, cut, lim, low, iter]
@@ -115,7 +120,7 @@ GrowStep(es, NN, st) ==
     ELSE LET e == IncidentEdge(es, NN, S, st.rank) IN
          IF e = 0 THEN [st EXCEPT !.phase = "panic_no_incident_edge"]
          ELSE LET d0 == Slack(es, e, st.rank)
-                  d == IF es[e][2] \in S.vn THEN -d0 ELSE d0
+                  d == IF es.p[e][2] \in S.vn THEN -d0 ELSE d0
               IN [st EXCEPT !.rank = [n \in 1..NN |-> IF n \in S.vn THEN st.rank[n] + d ELSE st.rank[n]], !.tree = S.tree]
 
 \* ---- one pivot of execNetworkSimplex's loop
@@ -139,8 +144,8 @@ VBal(es, NN, n, r, lsize, lmax) ==
     IF n > NN THEN r
     ELSE IF Len(In(es, n)) # Len(Out(es, n)) THEN VBal(es, NN, n + 1, r, lsize, lmax)
     ELSE LET ins == In(es, n) outs == Out(es, n)
-             low == Max({0} \cup {r[es[ins[k]][1]] + 1 : k \in DOMAIN ins})
-             high == Min({lmax} \cup {r[es[outs[k]][2]] - 1 : k \in DOMAIN outs})
+             low == Max({0} \cup {r[es.p[ins[k]][1]] + 1 : k \in DOMAIN ins})
+             high == Min({lmax} \cup {r[es.p[outs[k]][2]] - 1 : k \in DOMAIN outs})
              \* newl: the least crowded layer of low..high, the first one among equals
              best[i \in low..(IF high >= low THEN high ELSE low)] ==
                  IF i = low THEN low ELSE IF lsize[i] < lsize[best[i - 1]] THEN i ELSE best[i - 1]
@@ -171,10 +176,10 @@ RunNS(es, NN, maxiter) == RunFrom(es, NN, InitState(es, NN), maxiter, 400)
 
 \* ---- what the mechanism must establish
 Feasible(es, r) == \A e \in E(es) : Slack(es, e, r) >= 0
-TotalLen(es, r) == SumOver([e \in E(es) |-> r[es[e][2]] - r[es[e][1]]], E(es))
+TotalLen(es, r) == SumOver([e \in E(es) |-> r[es.p[e][2]] - r[es.p[e][1]]], E(es))
 \* a set of edges is a spanning tree of the (connected) graph: n-1 edges, no cycle (every node reachable from 1 through them)
 RECURSIVE TreeReach(_, _, _)
-TreeReach(es, T, S) == LET S2 == S \cup {es[e][2] : e \in {f \in T : es[f][1] \in S}} \cup {es[e][1] : e \in {f \in T : es[f][2] \in S}}
+TreeReach(es, T, S) == LET S2 == S \cup {es.p[e][2] : e \in {f \in T : es.p[f][1] \in S}} \cup {es.p[e][1] : e \in {f \in T : es.p[f][2] \in S}}
                        IN IF S2 = S THEN S ELSE TreeReach(es, T, S2)
 IsSpanningTree(es, NN, T) == Cardinality(T) = NN - 1 /\ TreeReach(es, T, {1}) = 1..NN
 =============================================================================
